@@ -81,9 +81,17 @@ def rule_tables(ctx: Ctx) -> None:
     rows_c, node_c = tabs["_transitions_check"]
     rows_r, node_r = tabs["_transitions_run"]
 
-    def culprit(rows, node, word, prefix):
-        """row to blame for a distinguishing word: the row of the last symbol, if any."""
+    def culprit(rows, node, word, prefix, dfa=None, ref=None):
+        """row to blame for a distinguishing word: the row of the first symbol after which the code and the
+        documented machine are in different states (else the last symbol)."""
         last = word[-1]
+        if dfa is not None and ref is not None:
+            a, b = dfa.initial, ref.initial
+            for w in word:
+                a, b = dfa.step(a, w), ref.step(b, w)
+                if a != b:
+                    last = w
+                    break
         for r, rn in zip(rows, table_rows(node)):
             if r["trigger"] == prefix + last:
                 return rn, _row_text(r)
@@ -99,7 +107,7 @@ def rule_tables(ctx: Ctx) -> None:
     if word is None:
         ctx.ob("C01.LANG-CHECK", SM, node_c, "L(_transitions_check) == L(documented machine)", True)
     else:
-        rn, rt = culprit(rows_c, node_c, word, "check_")
+        rn, rt = culprit(rows_c, node_c, word, "check_", dfa_c, spec_check)
         st_c, st_s = dfa_c.initial, spec_check.initial
         for w in word:
             st_c, st_s = dfa_c.step(st_c, w), spec_check.step(st_s, w)
@@ -122,7 +130,7 @@ def rule_tables(ctx: Ctx) -> None:
         if word is None:
             ctx.ob("C01.LANG-RUN", SM, node_r, f"L(_transitions_run | {label}) == L(documented machine)", True)
         else:
-            rn, rt = culprit(rows_r, node_r, word, "")
+            rn, rt = culprit(rows_r, node_r, word, "", dfa_r, spec_run)
             ctx.ob("C01.LANG-RUN", SM, rn, f"word \"{' '.join(word)}\" distinguishes the run table ({label}) from the documented machine; row {rt}", False, detail=f"shortest distinguishing pipeline: {' -> '.join(word)}")
         # the guarded transitions are exactly the documented ones
     for r, rn in zip(rows_r, table_rows(node_r)):
